@@ -92,7 +92,23 @@ func snapMsg(kind string, conn int, m *service.Message) Event {
 	return e
 }
 
+// joinSender sends one command to a key (set once the server exists; used by Scenario.OnJoinSend).
+var joinSender func(key string)
+
 func (e *eventer) OnJoinEvent(msg *service.Message, key string, err error) {
+	if e.sc.JoinHoldUs > 0 {
+		time.Sleep(time.Duration(e.sc.JoinHoldUs) * time.Microsecond)
+	}
+	if err == nil && e.sc.OnJoinSend > 0 && joinSender != nil {
+		// a dispatcher that greets every new terminal: the commands reach the connection's writer while its reader
+		// is still finishing the join
+		n := e.sc.OnJoinSend
+		go func() {
+			for i := 0; i < n; i++ {
+				joinSender(key)
+			}
+		}()
+	}
 	if e.sc.Silent {
 		return
 	}
@@ -557,6 +573,9 @@ func childMain() {
 		opts = append(opts, service.WithCustomHandleFunc(parseAllHandlers))
 	}
 	srv := service.New(opts...)
+	joinSender = func(key string) {
+		srv.SendActiveMessage(service.NewActiveMessage(key, consts.JT808CommandType(0x8104), nil, 100*time.Millisecond))
+	}
 	go srv.Run()
 	// wait until the listener accepts
 	up := false
@@ -699,7 +718,7 @@ func runPlatform(a Actor, srv *service.GoJT808, r *rec, bars *barriers) {
 			time.Sleep(time.Duration(s.PauseUs) * time.Microsecond)
 		case "barrier":
 			bars.wait(s.Barrier, s.Parties)
-		case "send":
+		case "send", "send_when_online":
 			s := s
 			call := func() {
 				r.add(Event{Actor: a.Name, Kind: "call_start", Call: s.CallID, Key: s.Key, Cmd: s.Cmd})
@@ -716,6 +735,13 @@ func runPlatform(a Actor, srv *service.GoJT808, r *rec, bars *barriers) {
 					reuseMu.Unlock()
 				}
 				res := srv.SendActiveMessage(am)
+				if s.Op == "send_when_online" {
+					// an independent dispatcher that keeps trying until the terminal is registered
+					for end := t0.Add(time.Duration(s.DeadlineMs) * time.Millisecond); res != nil && errors.Is(res.ExtensionFields.Err, service.ErrNotExistKey) && time.Now().Before(end); {
+						time.Sleep(time.Duration(max(s.PauseUs, 50)) * time.Microsecond)
+						res = srv.SendActiveMessage(am)
+					}
+				}
 				ev := Event{Actor: a.Name, Kind: "call_result", Call: s.CallID, Key: s.Key, Cmd: s.Cmd, DurUs: time.Since(t0).Microseconds()}
 				if res != nil {
 					ev.PSeq = res.ExtensionFields.PlatformSeq
@@ -741,6 +767,9 @@ func runPlatform(a Actor, srv *service.GoJT808, r *rec, bars *barriers) {
 			if s.TimeoutMs > maxWait {
 				maxWait = s.TimeoutMs
 			}
+			if s.TimeoutMs == 0 && maxWait < 5000 { // the connection's default timeout applies (3 s in the code, 5 s in the field comment)
+				maxWait = 5000
+			}
 			if s.Async {
 				calls.Add(1)
 				go func() { defer calls.Done(); call() }()
@@ -750,7 +779,7 @@ func runPlatform(a Actor, srv *service.GoJT808, r *rec, bars *barriers) {
 				go func() { defer calls.Done(); call(); close(done) }()
 				select {
 				case <-done:
-				case <-time.After(time.Duration(s.TimeoutMs)*time.Millisecond + 4*time.Second):
+				case <-time.After(time.Duration(s.TimeoutMs+5000*btoi(s.TimeoutMs == 0))*time.Millisecond + 4*time.Second):
 					r.add(Event{Actor: a.Name, Kind: "call_stranded", Call: s.CallID, Note: "synchronous call did not return within timeout + 4 s"})
 				}
 			}
@@ -768,4 +797,11 @@ func runPlatform(a Actor, srv *service.GoJT808, r *rec, bars *barriers) {
 			}
 		}
 	}
+}
+
+func btoi(b bool) int {
+	if b {
+		return 1
+	}
+	return 0
 }
